@@ -67,8 +67,11 @@ PutPath(S, T, v, p, nv) ==
 OthersOf(S, T, fd) == {Key(g) : g \in OneofMembers(S, T, fd.oo)} \ {Key(fd)}
 DropOthers(S, T, v, fd) == IF fd.card = "oneof" THEN [v EXCEPT !.f = Without(@, OthersOf(S, T, fd))] ELSE v
 
-\* how a returned composite is rendered
+\* how a returned composite is rendered: validity and a size -- the number of elements of a list
+\* or map; for a message the number of populated fields plus the length of its unknown bytes (so
+\* that "a fresh message" means an EMPTY one, and a view of a populated message shows its content)
 ViewOf(valid, n) == Ret("view", [valid |-> valid, len |-> n])
+MsgSize(x) == Cardinality(DOMAIN x.f) + Len(x.u)
 Scalar(x) == Ret("scalar", x)
 Bool(b) == Ret("bool", b)
 IntR(n) == Ret("int", n)
@@ -80,7 +83,7 @@ DefaultRet(fd) ==
 ValueRet(fd, x) ==
     CASE fd.card = "rep" -> ViewOf(TRUE, Len(x))
       [] fd.card = "map" -> ViewOf(TRUE, Cardinality(DOMAIN x))
-      [] fd.kind = "message" -> ViewOf(TRUE, 0)
+      [] fd.kind = "message" -> ViewOf(TRUE, MsgSize(x))
       [] OTHER -> Scalar(x)
 
 \* store a list / map back, keeping the normal form (empty container = unpopulated)
@@ -91,7 +94,7 @@ ListOf(v, fd) == IF HasF(v, fd) THEN GetF(v, fd) ELSE <<>>
 MapOf(v, fd) == IF HasF(v, fd) THEN GetF(v, fd) ELSE <<>>
 
 ElemZero(kind) == IF kind = "message" THEN ViewOf(TRUE, 0) ELSE Scalar(ZeroOf(kind))
-ElemRet(kind, x) == IF kind = "message" THEN ViewOf(TRUE, 0) ELSE Scalar(x)
+ElemRet(kind, x) == IF kind = "message" THEN ViewOf(TRUE, MsgSize(x)) ELSE Scalar(x)
 
 \* a view obtained through Get of an unpopulated list/map is read-only: writes panic
 ReadOnly(v, fd, op) == op.via = "get" /\ ~HasF(v, fd)
@@ -127,7 +130,8 @@ ApplyAt(S, T, v, op) ==
          [] op.op = "Mutable" ->
               IF fd.card \in {"rep", "map"} THEN R(v, ViewOf(TRUE, IF HasF(v, fd) THEN (IF fd.card = "rep" THEN Len(GetF(v, fd)) ELSE Cardinality(DOMAIN GetF(v, fd))) ELSE 0))
               ELSE IF fd.kind = "message"
-                   THEN R(IF HasF(v, fd) THEN v ELSE SetF(DropOthers(S, T, v, fd), fd, EmptyMsg), ViewOf(TRUE, 0))
+                   THEN R(IF HasF(v, fd) THEN v ELSE SetF(DropOthers(S, T, v, fd), fd, EmptyMsg),
+                          ViewOf(TRUE, IF HasF(v, fd) THEN MsgSize(GetF(v, fd)) ELSE 0))
               ELSE R(v, PANIC)
          [] op.op = "NewField" ->
               R(v, CASE fd.card \in {"rep", "map"} -> ViewOf(TRUE, 0)
@@ -187,7 +191,8 @@ ApplyAt(S, T, v, op) ==
          [] op.op = "MMutable" ->
               IF ReadOnly(v, fd, op) \/ fd.vk # "message" THEN R(v, PANIC)
               ELSE LET m == MapOf(v, fd)
-                   IN R(IF op.k \in DOMAIN m THEN v ELSE SetF(v, fd, (op.k :> EmptyMsg) @@ m), ViewOf(TRUE, 0))
+                   IN R(IF op.k \in DOMAIN m THEN v ELSE SetF(v, fd, (op.k :> EmptyMsg) @@ m),
+                        ViewOf(TRUE, IF op.k \in DOMAIN m THEN MsgSize(m[op.k]) ELSE 0))
          [] op.op = "MClear" ->
               LET m == MapOf(v, fd)
               IN IF ReadOnly(v, fd, op) THEN R(v, OK)   \* deleting from an empty read-only map is a no-op everywhere
